@@ -245,10 +245,28 @@ def _battery(ctx, RN, r, cid, closed, relation, full, via_grid):
                 full = full + full.T
                 x = np.where(adj != 0, x, full)
                 ctx.count("resistances_defined_on_non_links")
-            return RN(x, grid=grid, adjacency=adj, silence_level=3)
+            return weighted(RN, x, grid=grid, adjacency=adj, silence_level=3)
     else:
         def build(x):
-            return RN(x, silence_level=3)
+            return weighted(RN, x, silence_level=3)
+
+    def weighted(cls, x, **kw):
+        # the class inherits geographical node weights from GeoNetwork; the
+        # electrical quantities are defined without them
+        rw = ctx.rng("nodeweights", cid)
+        u = rw.random()
+        if u < 0.6:
+            return cls(x, **kw)
+        ctx.count("nonuniform_node_weights")
+        if u < 0.8:
+            return cls(x, node_weight_type=str(rw.choice(
+                ["surface", "irrigation"])), **kw)
+        o = cls(x, **kw)
+        if u < 0.9:
+            o.node_weights = rw.uniform(0.2, 5.0, len(x))
+        else:
+            o.set_node_weight_type("surface")
+        return o
     ok, net = ctx.call(build, r.copy())
     ctx.evals()
     if not ok:
